@@ -17,7 +17,9 @@ impl Serialize for TimeStamp {
     where
         S: Serializer,
     {
-        let form = self.0.to_rfc3339_opts(SecondsFormat::Secs, true);
+        // keep the fractional seconds the value has (none, 3, 6 or 9 digits):
+        // the text must parse back to the same instant
+        let form = self.0.to_rfc3339_opts(SecondsFormat::AutoSi, true);
         form.serialize(ser)
     }
 }
